@@ -304,6 +304,8 @@ def canon_trace(tr):
         return ['<no output>']
     out = []
     for l in tr:
+        if l.startswith('INFO '):
+            continue
         if l.startswith('PANIC') or l.startswith('ABORT') or l.startswith('HANG'):
             m = re.match(r'PANIC tick=(\d+)', l)
             out.append('CRASH' + (' tick=' + m.group(1) if m else ''))
